@@ -308,6 +308,16 @@ def applicable_case(draw, tier="quick"):
         sdesc = ["LetterSwap", {"shift": draw(st.integers(1, k - 1))}]
     if strict and all(any(p in prefix + a for p in pats) for a in alphabet):
         strict = 0
+    if kind in ("Peel", "Expand", "SplitAtom") and draw(st.integers(0, 3)) == 0:
+        # make merges bite: two statistics that agree on one child but not on the other
+        letters = list(alphabet)
+        a = draw(st.sampled_from(letters))
+        b = draw(st.sampled_from(letters))
+        stats = [a, b] + stats[:1]
+        which = draw(st.sampled_from(["xf_atom", "xf_rest", "both"]))
+        for key in ("xf_atom", "xf_rest"):
+            if which in (key, "both"):
+                sdesc[1][key] = draw(st.sampled_from(["merge", "dm", "mr"]))
     pool = draw(st.integers(0, 1)) if stats else 0
     return [alphabet, prefix, sorted(pats), 0, stats, pool, strict], sdesc
 
